@@ -37,6 +37,7 @@ TRUSTED_BASE = [
     "harness/extract_srccasing.py (casing.py: the regex constants and the two re.sub patterns PARSED into a regex AST, the substitute_word closures, camel_case, sanitize_name, safe_snake_case -> Gen/SrcCasing.lean), lean/BpProofs/PyRegex.lean (semantics of CPython's re matching and re.sub incl. the empty-match rule; validated against the real re by harness/tests/check_regex.py) and lean/BpProofs/PyPreludeCasing.lean",
     "harness/extract_srcnaming.py (compile/naming.py: the four pythonize_* functions -> Gen/SrcNaming.lean) and lean/BpProofs/PyPreludeNaming.lean (str.find / strip / upper on ASCII)",
     "harness/extract_srcplugin.py (plugin/models.py: get_map_entry, is_map, is_oneof and eleven members of the four field compiler classes -> Gen/SrcPlugin.lean) and lean/BpProofs/PyPreludePlugin.lean (descriptor objects as the model's FieldP / MsgP)",
+    "harness/extract_srcmsg.py (everything around the loops of Message.dump / __len__ / __bytes__ / SerializeToString / load / parse / FromString / __getstate__ / __setstate__ / __reduce__, plus the fixed template that ties the recursive knot by fuel on nesting depth -> Gen/SrcMsg.lean) and lean/BpProofs/PyPreludeMsg.lean",
     "that each Lean statement in lean/BpProofs/Props says what the English property says",
 ]
 
